@@ -258,7 +258,7 @@ func (c *checker) funcBatch(vs []vector, base int) {
 			What: "printing a module of freshly built functions panics: " + mbt.Truncate(msg, 200), Case: caseOf(vs, "build")})
 	} else {
 		per := splitFuncs(printed)
-		if ok, diag := c.accept(printed); !ok {
+		if ok, diag := c.accept(withoutBAMetadata(printed)); !ok {
 			// blame single functions
 			blamed := false
 			for i, pl := range plans {
@@ -359,7 +359,11 @@ func (c *checker) funcBatch(vs []vector, base int) {
 			pobjs[i] = obj
 			okPlan[i] = true
 			if detail := pl.checkCompanions(m, f, obj); detail != "" {
-				rep.Fail(mbt.Failure{Signature: "C08|parse|binding|blockaddress of a block, " + modeNames[mode] + " numbering",
+				site := "blockaddress of a block"
+				if strings.Contains(detail, "metadata node") {
+					site = "blockaddress of a block in a metadata node"
+				}
+				rep.Fail(mbt.Failure{Signature: "C08|parse|binding|" + site + ", " + modeNames[mode] + " numbering",
 					What: fmt.Sprintf("%s rendering of %s: %s", modeNames[mode], pl.describe, detail), Case: caseOfText(vs[i:i+1], "parse", prelude+pl.render(mode))})
 			}
 			if kind, detail := pl.checkBinding(obj); kind != "" {
@@ -411,15 +415,66 @@ func (c *checker) funcBatch(vs []vector, base int) {
 			c.reassign(pl, byName[pl.fname], pobjs[i], "parse", vs[i])
 		}
 		if mode == modeImplicit {
-			if ok, diag := c.accept(out); !ok {
+			if ok, diag := c.accept(withoutBAMetadata(out)); !ok {
 				rep.Fail(mbt.Failure{Signature: "C08|parse+print|llvm-as rejects|" + diagClass(diag),
 					What: "llvm-as rejects the text printed for a parsed batch: " + diagClass(diag), Case: caseOfText(vs, "parse", texts[mode])})
 			}
+		}
+		if mode == modeImplicit {
+			c.editParsed(vs, plans, okPlan, byName, refToks, m, texts[mode])
 		}
 	}
 	if base == 0 && len(vs) > 0 {
 		rep.Sample(map[string]interface{}{"kind": "func", "shape": vs[len(vs)/2].key(), "form": vs[len(vs)/2].Form, "llvm_numbering": vs[len(vs)/2].Ids,
 			"explicit_text": plans[len(vs)/2].render(modeExplicit)})
+	}
+}
+
+// editParsed: parse -> edit -> print (NumberingGen!FnInsertShifts). An unnamed instruction is inserted at the head of
+// the entry block of every parsed function; the printer must give it the number the specification says (vector field
+// ins) and move every later number -- definitions, uses, labels, and the addresses of the function's blocks held by
+// an earlier function, by global initialisers and by metadata nodes -- up by one.
+func (c *checker) editParsed(vs []vector, plans []*plan, okPlan []bool, byName map[string]*ir.Func, refToks [][]string, m *ir.Module, src string) {
+	rep := c.rep
+	for i, pl := range plans {
+		if f := byName[pl.fname]; okPlan[i] && f != nil && len(f.Blocks) > 0 {
+			k := constant.NewInt(types.I32, insertedConst)
+			f.Blocks[0].Insts = append([]ir.Instruction{ir.NewAdd(k, k)}, f.Blocks[0].Insts...)
+		}
+	}
+	var out string
+	if msg, panicked := mbt.Guard(func() { out = m.String() }); panicked {
+		rep.Fail(mbt.Failure{Signature: "C08|parse+edit+print|panic|function, " + irhist.PanicClass(msg),
+			What: "printing a parsed module after an unnamed instruction was inserted panics: " + mbt.Truncate(msg, 200), Case: caseOfText(vs, "parse+edit", src)})
+		return
+	}
+	per := splitFuncs(out)
+	for i, pl := range plans {
+		if !okPlan[i] || byName[pl.fname] == nil || len(byName[pl.fname].Blocks) == 0 {
+			continue
+		}
+		rest, def, ok := cutInserted(per[pl.fname])
+		if !ok {
+			rep.Fail(mbt.Failure{Signature: "C08|parse+edit+print|structure|inserted instruction not printed", What: "the inserted instruction is missing from the printed function of " + pl.describe, Case: caseOfText(vs[i:i+1], "parse+edit", src)})
+			continue
+		}
+		c.rep.Count("edit:"+pl.describe, true)
+		if want := "%" + strconv.Itoa(vs[i].Ins); def != want {
+			rep.Fail(mbt.Failure{Signature: "C08|parse+edit+print|numbering|inserted unnamed instruction",
+				What: fmt.Sprintf("%s, parsed, unnamed instruction inserted at the head of the entry block: printed as %s, LLVM numbers it %s", pl.describe, def, want), Case: caseOfText(vs[i:i+1], "parse+edit", prelude+pl.render(modeImplicit))})
+			continue
+		}
+		per2 := map[string]string{"u." + pl.fname: per["u."+pl.fname], pl.fname: rest}
+		got, want := tokens(pl.chunk(out, per2)), pl.shiftTokens(refToks[i], vs[i].Ins)
+		if d := firstDiff(got, want); d >= 0 {
+			rep.Fail(mbt.Failure{Signature: "C08|parse+edit+print|numbering|" + pl.editRegion(d) + " keeps a number of before the edit",
+				What: fmt.Sprintf("%s, parsed, unnamed instruction inserted at the head of the entry block: printed identifiers %v, LLVM numbering is %v (first difference at token %d)", pl.describe, got, want, d),
+				Case: caseOfText(vs[i:i+1], "parse+edit", prelude+pl.render(modeImplicit))})
+		}
+	}
+	if ok, diag := c.accept(withoutBAMetadata(out)); !ok {
+		rep.Fail(mbt.Failure{Signature: "C08|parse+edit+print|llvm-as rejects|" + diagClass(diag),
+			What: "llvm-as rejects the text printed for a parsed batch after an unnamed instruction was inserted into every function: " + diagClass(diag), Case: caseOfText(vs, "parse+edit", src)})
 	}
 }
 
